@@ -403,7 +403,10 @@ class Shadow:
             if not clean_args and real_err is not None and isinstance(real_err, (TypeError, ValueError)):
                 pass  # rejection of forbidden data in a read argument is fine
             else:
-                self.v("C03", "%s%r: real %s, built-in %s" % (
+                tags = ("C03",)
+                if is_mut and clean_args and real_err is not None and exp_err is None:
+                    tags = ("C03", "C12")      # a valid value was rejected
+                self.v(tags, "%s%r: real %s, built-in %s" % (
                     name, tuple(plain_args),
                     "ok" if real_err is None else type(real_err).__name__,
                     "ok" if exp_err is None else type(exp_err).__name__))
